@@ -198,7 +198,10 @@ impl Pca<f64> {
         &self,
         prediction: ArrayBase<ndarray::OwnedRepr<f64>, ndarray::Dim<[usize; 2]>>,
     ) -> ArrayBase<ndarray::OwnedRepr<f64>, ndarray::Dim<[usize; 2]>> {
-        prediction.dot(&self.embedding) + &self.mean
+        // a whitened embedding has rows scaled by sqrt(n - 1) / sigma: divide each coordinate by the
+        // squared row norm (1 without whitening) so that the scale is undone instead of applied twice
+        let scale = self.embedding.map_axis(Axis(1), |row| row.dot(&row));
+        (prediction / &scale).dot(&self.embedding) + &self.mean
     }
 }
 
